@@ -3,6 +3,7 @@
 package proto
 
 import (
+	"google.golang.org/protobuf/encoding/protowire"
 	"google.golang.org/protobuf/reflect/protoreflect"
 	"google.golang.org/protobuf/runtime/protoiface"
 )
@@ -117,5 +118,40 @@ func contract_MarshalOptions_marshal(o MarshalOptions, b []byte, m protoreflect.
 	domain(!o.UseCachedSize) // callers setting the deprecated option take over the obligation themselves
 	modifiesAll()
 	ensures(imp(err == nil && !o.AllowPartial, specInitVerdict(err)))
+	return
+}
+
+// ---------------------------------------------------------------- speculative length prefix (C04, reflection path)
+
+// appendSpeculativeLength reserves one byte for the length and reports where.
+//
+// @ props C04 C08
+// @ mode int
+func contract_appendSpeculativeLength(b []byte) (r []byte, pos int) {
+	modifiesTail(b)
+	ensures(pos == len(b) && len(r) == len(b)+1)
+	ensures(freshSlice(r) || sameArray(r, b))
+	ensures(forallIn(r, 0, len(b), func(i int, e byte) bool { return e == old(b[i]) }))
+	return
+}
+
+// finishSpeculativeLength: b is  prefix[0:pos] ++ one reserved byte ++ payload.  The result is
+// prefix ++ varint(len(payload)) ++ payload: the prefix and the payload bytes are kept, the
+// length is encoded minimally in front of the payload, whatever size it needs.
+//
+// @ props C04 C08
+// @ mode int
+// @ loop 1 invariant 0 <= i && i <= msiz-1 && len(b) == len(old(b))+i && (sameArray(b, old(b)) || freshSlice(b))
+// @ loop 1 invariant forallIn(b, 0, len(old(b)), func(k int, e byte) bool { return e == old(b[k]) })
+func contract_finishSpeculativeLength(b []byte, pos int) (r []byte) {
+	requires(0 <= pos && pos < len(b))
+	modifiesElems(b)
+	modifiesTail(b)
+	ensures(len(r) == pos+protowire.SpecVlen(uint64(len(b)-pos-1))+(len(b)-pos-1))
+	ensures(forallIn(r, 0, pos, func(k int, e byte) bool { return e == old(b[k]) }))
+	ensures(protowire.SpecVarintAt(r, pos, uint64(len(b)-pos-1)))
+	ensures(forallIn(r, pos+protowire.SpecVlen(uint64(len(b)-pos-1)), len(r), func(k int, e byte) bool {
+		return e == old(b[k-protowire.SpecVlen(uint64(len(b)-pos-1))+1])
+	}))
 	return
 }
